@@ -383,11 +383,19 @@ def report_violations(agg, max_reports=int(os.environ.get('VERIF_MAX_REPORTS', 4
             r2 = run_plan_fresh(plan)
             v1 = [v for v in r1['violations'] if shrink.obs_class(v['observable']) == target]
             v2 = [v for v in r2['violations'] if shrink.obs_class(v['observable']) == target]
-            if not v1 or not v2 or r1.get('digest') != r2.get('digest'):
-                agg.errors.append('violation did not replay deterministically: %s / %s / digests %s %s; original: %r'
+            if not v1 or not v2:
+                agg.errors.append('violation did not replay: %s / %s / digests %s %s; original: %r'
                                   % (bool(v1), bool(v2), r1.get('digest'), r2.get('digest'), item['violations'][0]))
                 continue
             path, v = write_replay(plan, target, r1)
+            if r1.get('digest') != r2.get('digest'):
+                # the same plan, the same seams, two different executions:
+                # the program under test itself is nondeterministic (a real
+                # thread race, an uncontrolled source) - which is a run-to-run
+                # variation in its own right.  The violation reproduced in
+                # both replays; the values differ between them.
+                print('NOTE property=%s the violation below reproduces on every replay but with different values: '
+                      'the program is nondeterministic under an identical schedule' % PROP)
         except Exception:
             agg.errors.append('minimise/replay failed:\n' + traceback.format_exc())
             continue
